@@ -62,7 +62,11 @@ template <> struct info<M4> { static constexpr std::size_t N = 4; static constex
 template <> struct info<P3> { static constexpr std::size_t N = 3; static constexpr const char * ty = "morton_portable"; };
 template <> struct info<P4> { static constexpr std::size_t N = 4; static constexpr const char * ty = "morton_portable"; };
 
+// long-lived views (spec: `view'): kept across operations for as long as the specification says they stay valid
+using view_slot_t = std::variant<std::monostate, S1::view_t, S2::view_t, M1::view_t, M2::view_t, P1::view_t, P2::view_t, H2::view_t,
+                                 S3::view_t, S4::view_t, M3::view_t, M4::view_t, P3::view_t, P4::view_t>;
 static std::vector<slot_t> g_slots;
+static std::vector<view_slot_t> g_views;
 static std::string g_stream;       // last dump
 static std::size_t g_stream_type;  // variant index of the dumped field
 
@@ -162,6 +166,28 @@ static void do_step(const json & st, const json & ctx) {
         tryload(std::type_identity<P3>{}, 12); tryload(std::type_identity<P4>{}, 13);
     } else if (op == "Destroy") {
         S("s").template emplace<std::monostate>();
+    } else if (op == "MakeView") {
+        view_slot_t & vs = g_views.at(a["view"].get<std::size_t>() - 1);
+        std::visit([&](auto & f) {
+            using F = std::decay_t<decltype(f)>;
+            if constexpr (!std::is_same_v<F, std::monostate>) {
+                typename F::view_t tmp(f);                      // the view object is itself a value: keep a COPY of it,
+                vs.template emplace<typename F::view_t>(tmp);   // the original goes out of scope here
+            }
+        }, S("s"));
+    } else if (op == "DropView") {
+        g_views.at(a["view"].get<std::size_t>() - 1).template emplace<std::monostate>();
+    } else if (op == "WriteView") {
+        auto c = a["c"].get<std::vector<std::size_t>>();
+        std::visit([&](auto & v) {
+            using V = std::decay_t<decltype(v)>;
+            if constexpr (!std::is_same_v<V, std::monostate>) {
+                using F = typename V::field_t;
+                covfie::array::array<std::size_t, info<F>::N> cc;
+                for (std::size_t k = 0; k < info<F>::N; ++k) cc[k] = c[k];
+                v.at(cc)[0] = (VF_STORE)a["val"].get<long>();
+            } else mismatch("replayer/write-through-empty-view", ctx);
+        }, g_views.at(a["view"].get<std::size_t>() - 1));
     } else {
         mismatch("replayer/unknown-op", {{"op", op}});
     }
@@ -191,12 +217,59 @@ static void compare(const json & after, const json & ctx, const std::string & op
             }
         }, g_slots[s]);
     }
+    // long-lived views: one the specification declares dead is dropped (never used again); one it keeps valid must read, at
+    // every coordinate, exactly what the specification says the storage it points to holds now
+    if (after.contains("views")) for (std::size_t v = 0; v < after["views"].size() && v < g_views.size(); ++v) {
+        const json & w = after["views"][v];
+        json x = ctx; x["view"] = v + 1; x["after_op"] = op;
+        if (w["st"] != "valid") { g_views[v].template emplace<std::monostate>(); continue; }
+        std::visit([&](auto & vw) {
+            using V = std::decay_t<decltype(vw)>;
+            if constexpr (std::is_same_v<V, std::monostate>) { mismatch("lifecycle/view-missing", x); }
+            else {
+                using F = typename V::field_t;
+                expect_eq("lifecycle/view-type/" + op, std::string(info<F>::ty), w["ty"].get<std::string>(), x);
+                for (auto & cv_ : w["vals"]) {
+                    json y = x; y["c"] = cv_["c"];
+                    auto c = cv_["c"].get<std::vector<std::size_t>>();
+                    covfie::array::array<std::size_t, info<F>::N> cc;
+                    for (std::size_t k = 0; k < info<F>::N; ++k) cc[k] = c[k];
+                    expect_eq("lifecycle/view-value/" + op, (double)vw.at(cc)[0], (double)cv_["v"].get<long>(), y);
+                }
+            }
+        }, g_views[v]);
+    }
     static const bool count_blocks = std::getenv("VF_NO_BLOCKCOUNT") == nullptr;   // valgrind replaces the allocation functions itself
     if (!unspec && count_blocks) expect_eq("lifecycle/live-storage-blocks/" + op, (long)g_live_arrays.load() - g_base_arrays, after["blocks"].get<long>(), ctx);
 }
 
 // ------------------------------------------------------------------ code -> spec: a random driver that logs what it did
 struct shadow { std::string st = "dead", ty = "none"; std::size_t n = 0; };   // the driver's own bookkeeping of what it has done
+
+struct vshadow { bool valid = false; std::size_t owner = 0; std::vector<std::size_t> ext; };   // ... and of its long-lived views
+
+static json project_views(const std::vector<vshadow> & vs) {
+    json views = json::array();
+    for (std::size_t v = 0; v < g_views.size(); ++v) {
+        json o = {{"st", vs[v].valid ? "valid" : "none"}, {"vals", json::array()}};
+        if (vs[v].valid) std::visit([&](auto & vw) {
+            using V = std::decay_t<decltype(vw)>;
+            if constexpr (!std::is_same_v<V, std::monostate>) {
+                using F = typename V::field_t;
+                std::size_t prod = 1; for (auto x : vs[v].ext) prod *= x;
+                for (std::size_t cell = 0; cell < prod; ++cell) {
+                    std::vector<std::size_t> c(info<F>::N); std::size_t r = cell;
+                    for (std::size_t k = info<F>::N; k-- > 0;) { c[k] = r % vs[v].ext[k]; r /= vs[v].ext[k]; }
+                    covfie::array::array<std::size_t, info<F>::N> cc;
+                    for (std::size_t k = 0; k < info<F>::N; ++k) cc[k] = c[k];
+                    o["vals"].push_back({{"c", c}, {"v", (long)vw.at(cc)[0]}});
+                }
+            }
+        }, g_views[v]);
+        views.push_back(o);
+    }
+    return views;
+}
 
 static json project(const std::vector<shadow> & sh) {
     json slots = json::array();
@@ -234,14 +307,22 @@ static void drive(uint64_t seed, long execs, long nops, const char * path) {
     long events = 0;
     for (long e = 0; e < execs; ++e) {
         out << json({{"e", "Reset"}}).dump() << "\n"; ++events;
+        g_views.clear(); g_views.resize(2);
         g_slots.clear(); g_slots.resize(3); g_stream.clear();
         std::vector<shadow> sh(3);
+        std::vector<vshadow> vs(2);
+        // the driver's own rule for which views are still usable (independent of the specification's KeepViews; the two are
+        // compared by Trace_Lifecycle): a view follows its storage when the owner is moved from and dies when the owner is the
+        // target of an assignment, the source of a moving conversion, or destroyed
+        auto kill = [&](std::size_t owner) { for (std::size_t v = 0; v < vs.size(); ++v) if (vs[v].valid && vs[v].owner == owner) { vs[v].valid = false; g_views[v].template emplace<std::monostate>(); } };
+        auto follow = [&](std::size_t from, std::size_t to) { for (auto & x : vs) if (x.valid && x.owner == from) x.owner = to; };
         bool have_stream = false; std::string stream_ty; std::size_t stream_n = 0;
         for (long k = 0; k < nops; ++k) {
             // pick an enabled operation
             for (int attempt = 0; attempt < 200; ++attempt) {
                 std::size_t s = r.below(3), d = r.below(3);
-                int op = (int)r.below(12);
+                int op = (int)r.below(16);
+                std::size_t vi = r.below(2);
                 json ev;
                 auto live = [&](std::size_t i) { return sh[i].st == "live"; };
                 auto assignable = [&](std::size_t i) { return sh[i].st != "dead"; };
@@ -267,12 +348,13 @@ static void drive(uint64_t seed, long execs, long nops, const char * path) {
                     const char * nm = op == 4 ? "CopyCtor" : "MoveCtor";
                     ev = {{"e", nm}, {"args", {{"d", d + 1}, {"s", s + 1}}}};
                     do_step({{"op", nm}, {"args", ev["args"]}}, {});
-                    sh[d] = sh[s]; if (op == 5) sh[s].st = "moved";
+                    sh[d] = sh[s]; if (op == 5) { sh[s].st = "moved"; follow(s, d); }
                 } else if ((op == 6 || op == 7) && assignable(d) && live(s) && sh[d].ty == sh[s].ty && sh[d].n == sh[s].n) {
                     const char * nm = op == 6 ? "CopyAssign" : "MoveAssign";
                     ev = {{"e", nm}, {"args", {{"d", d + 1}, {"s", s + 1}}}};
                     do_step({{"op", nm}, {"args", ev["args"]}}, {});
-                    if (d != s) { sh[d] = sh[s]; if (op == 7) sh[s].st = "moved"; }
+                    kill(d);
+                    if (d != s) { sh[d] = sh[s]; if (op == 7) { sh[s].st = "moved"; follow(s, d); } }
                     else if (op == 7) sh[s].st = "unspec";
                 } else if ((op == 8 || op == 9) && sh[d].st == "dead" && live(s) && d != s) {
                     const char * ty2 = layouts[r.below(4)];
@@ -280,7 +362,7 @@ static void drive(uint64_t seed, long execs, long nops, const char * path) {
                     const char * nm = op == 8 ? "Convert" : "ConvertMove";
                     ev = {{"e", nm}, {"args", {{"d", d + 1}, {"s", s + 1}, {"ty", ty2}}}};
                     do_step({{"op", nm}, {"args", ev["args"]}}, {});
-                    sh[d] = {"live", ty2, sh[s].n}; if (op == 9) sh[s].st = "unspec";
+                    sh[d] = {"live", ty2, sh[s].n}; if (op == 9) { sh[s].st = "unspec"; kill(s); }
                 } else if (op == 10 && live(s)) {
                     if (r.below(2)) {
                         ev = {{"e", "Dump"}, {"args", {{"s", s + 1}}}};
@@ -295,12 +377,30 @@ static void drive(uint64_t seed, long execs, long nops, const char * path) {
                     ev = {{"e", "Destroy"}, {"args", {{"s", s + 1}}}};
                     do_step({{"op", "Destroy"}, {"args", ev["args"]}}, {});
                     sh[s] = shadow{};
+                    kill(s);
+                } else if (op == 12 && live(s) && !vs[vi].valid) {
+                    ev = {{"e", "MakeView"}, {"args", {{"view", vi + 1}, {"s", s + 1}}}};
+                    do_step({{"op", "MakeView"}, {"args", ev["args"]}}, {});
+                    vs[vi].valid = true; vs[vi].owner = s; vs[vi].ext = project(sh)["slots"][s]["ext"].get<std::vector<std::size_t>>();
+                } else if ((op == 13 || op == 14) && vs[vi].valid) {
+                    std::size_t prod = 1; for (auto x : vs[vi].ext) prod *= x;
+                    if (prod == 0) continue;
+                    std::size_t cell = r.below(prod); std::vector<std::size_t> c(vs[vi].ext.size());
+                    for (std::size_t k = c.size(); k-- > 0;) { c[k] = cell % vs[vi].ext[k]; cell /= vs[vi].ext[k]; }
+                    ev = {{"e", "WriteView"}, {"args", {{"view", vi + 1}, {"c", c}, {"val", 1 + r.below(9)}}}};
+                    do_step({{"op", "WriteView"}, {"args", ev["args"]}}, {});
+                } else if (op == 15 && vs[vi].valid && r.below(3) == 0) {
+                    ev = {{"e", "DropView"}, {"args", {{"view", vi + 1}}}};
+                    do_step({{"op", "DropView"}, {"args", ev["args"]}}, {});
+                    vs[vi].valid = false;
                 } else continue;
                 ev["after"] = project(sh);
+                ev["after"]["views"] = project_views(vs);
                 out << ev.dump() << "\n"; ++events;
                 break;
             }
         }
+        g_views.clear();
         g_slots.clear();
     }
     g_cases = execs;
@@ -322,6 +422,7 @@ int main(int argc, char ** argv) {
             ++g_cases;
             std::size_t nslots = beh[0]["after"]["slots"].size();
             g_slots.clear(); g_slots.resize(nslots);
+            g_views.clear(); g_views.resize(beh[0]["after"].contains("views") ? beh[0]["after"]["views"].size() : 0);
             g_base_arrays = g_live_arrays.load();
             g_stream.clear();
             json ops = json::array();
@@ -333,6 +434,7 @@ int main(int argc, char ** argv) {
                 compare(st["after"], ctx, st["op"]);
                 ++steps;
             }
+            g_views.clear();
             g_slots.clear();
             if (std::getenv("VF_NO_BLOCKCOUNT") == nullptr) expect_eq("lifecycle/leak-at-end", (long)g_live_arrays.load() - g_base_arrays, 0L, {{"history", ops}});
         }
